@@ -103,6 +103,10 @@ def connectOk (t : List Act) : Bool :=
   noneAfter isSpawn (fun a => isCall ("Client.connect" :: hooks) a) t &&
   -- a path that starts them returns right after: keepalive, receiver, return
   (sp == [] || (t.dropWhile (fun a => !isSpawn a)).length == 3) &&
+  -- a path that has written the initial presence - the session is established and announced - either starts the
+  -- receiver and the keepalive or returns the error of the application's hook; there is no third way out (a session
+  -- without a receiver would never report its loss)
+  (!t.contains .write || sp != [] || t.any (isCall hooks)) &&
   t.contains (.call "Client.connect")
 
 theorem client_connect_every_path :
